@@ -653,6 +653,11 @@ class BinHandle:
         avail = self._avail(pos)
         if n is None or n < 0 or n > avail:
             n = avail
+        # a read that covers whole payload words only hands back the words themselves (np.frombuffer(bf.read(8 * n)))
+        i0, off0 = self.bf.locate(pos)
+        if n > 0 and n % 8 == 0 and i0 is not None and self.bf.segs[i0][0] == WD and off0 % 8 == 0 and off0 + n <= len(self.bf.segs[i0][1]) * 8:
+            self.pos = pos + n
+            return SymBytes(self.bf.segs[i0][1][off0 // 8:(off0 + n) // 8])
         out = b''
         i, off = self.bf.locate(pos)
         garbage = False
